@@ -18,7 +18,7 @@ RULE = (
     "bytes, date, datetime naive/aware, pd.Timestamp, lists and str-keyed dicts nesting these to depth 3, 1-d numpy arrays of the 7 supported dtypes incl. empty, "
     "pd.Index/Series/DataFrame incl. empty and indexed, InMemoryPartition/OnDiskPartition of such values) or an exception from a catalogue (builtin, importable custom "
     "with message constructor, two required args, no-arg constructor, function-local class, classes nested one and two levels inside another class with a same-named top-level decoy, a class in a module that only the body imports (replayed in another process in which that module is not loaded), NonMemoizedException subclass) x backend {filesystem, filesystem+cache 256 B..16 MiB (so that weak-referenceable results oversize for the cache occur), memory} "
-    "x modifier {plain, ignore_result, force_local}. A table-driven memento function returns/raises it. Oracle: call 1 runs the body exactly once and returns the object; "
+    "x modifier {plain, ignore_result, force_local, monitor_progress, force_local().monitor_progress(), ignore_result().ignore_result(False)}. A table-driven memento function returns/raises it. Oracle: call 1 runs the body exactly once and returns the object; "
     "calls 2-3 and a call after reopening the store run nothing and return a typed-equal value (same ResultType for partitions); memento().result_type == ResultType.from_object(value read back); "
     "the object returned by call 1 is still fully usable; exceptions replay as the same class when Class(message) can be built else MementoException, original message contained; "
     "NonMemoizedException is never recorded; call_batch([a, a']) with a memoized and a' new runs only a' and returns the memoized value next to the new one; forget(a) makes exactly call a run again and no other. Non-trivial = anything but a bare scalar literal; distinct by (type shape, backend, modifier)."
@@ -118,6 +118,13 @@ def _equal(a, b):
     return values.typed_equal(a, b)
 
 
+def _modified(fn, modifier):
+    """the function under a caller-side modifier; everything but ignore_result leaves the call's result as it is"""
+    return {"plain": lambda: fn, "ignore_result": lambda: fn.ignore_result(), "force_local": lambda: fn.force_local(),
+            "monitor_progress": lambda: fn.monitor_progress(), "force_local+monitor_progress": lambda: fn.force_local().monitor_progress(),
+            "ignore_result_off": lambda: fn.ignore_result().ignore_result(False)}[modifier]()
+
+
 def _replay_in_child(k, modifier):
     """forked child: forget that the lazily imported exception module was ever loaded, then make the (memoized) call"""
     import sys
@@ -126,7 +133,7 @@ def _replay_in_child(k, modifier):
     if hasattr(vlib, "lazyerrs"):
         delattr(vlib, "lazyerrs")
     rt.take()
-    fn = tfuncs.val.ignore_result() if modifier == "ignore_result" else (tfuncs.val.force_local() if modifier == "force_local" else tfuncs.val)
+    fn = _modified(tfuncs.val, modifier)
     try:
         v = fn(k)
         res = {"kind": "ok", "value": repr(v)[:100]}
@@ -153,12 +160,7 @@ def execute(case, scratch):
         spec = case["result"]
         is_exc = "exc" in spec
         fn = tfuncs.val
-        if case["modifier"] == "ignore_result":
-            call = fn.ignore_result()
-        elif case["modifier"] == "force_local":
-            call = fn.force_local()
-        else:
-            call = fn
+        call = _modified(fn, case["modifier"])
         if is_exc:
             rt.TABLE[("val", k)] = lambda: tfuncs.raise_kind(spec["exc"], spec["msg"])
         else:
@@ -400,7 +402,7 @@ def strategy():
     return st.builds(
         lambda r, b, kb, mod: {"result": r, "backend": b, "budget_kb": kb, "modifier": mod},
         result, st.sampled_from(["fs", "fsc", "fsc", "mem"]), st.sampled_from([0.25, 2, 2, 64, 16384]),
-        st.sampled_from(["plain", "plain", "ignore_result", "force_local"]))
+        st.sampled_from(["plain", "plain", "plain", "ignore_result", "ignore_result", "force_local", "force_local", "monitor_progress", "force_local+monitor_progress", "ignore_result_off"]))
 
 
 def run_shard(ctx):
